@@ -130,6 +130,9 @@ func (u *PacketUnderlay) Close() error {
 	// Unblock any pending I/O before closing sessions.
 	u.conn.SetReadDeadline(time.Now())
 	u.baseUnderlay.Close()
+	// The event loop may have started another read with a fresh timeout
+	// while the sessions were closing. Unblock it again now that done is closed.
+	u.conn.SetReadDeadline(time.Now())
 	return nil
 }
 
@@ -377,6 +380,12 @@ func (u *PacketUnderlay) readOneSegment() (*segment, net.Addr, error) {
 		// Use the largest possible value here to avoid error.
 		b := make([]byte, 1500)
 		common.SetReadTimeout(u.conn, readOneSegmentTimeout)
+		select {
+		case <-u.done:
+			// Close() ran after the check above. Don't wait for the new timeout.
+			return nil, nil, io.ErrClosedPipe
+		default:
+		}
 		n, addr, err := u.conn.ReadFrom(b)
 		if err != nil {
 			if stderror.IsTimeout(err) {
